@@ -160,8 +160,14 @@ def rule_constants(ck: Check, repo: Repo, folder: Folder) -> None:
     d5r = repo.func(f"{GL}.ReuseDep5.reuse_info_of")
     reader_lic = [ast.unparse(kw.value) for c in ast.walk(d5r) if isinstance(c, ast.Call) for kw in c.keywords if kw.arg == "spdx_expressions"]
     r.instance("licence-value", {"converter": lic_t, "dep5_reader": reader_lic})
+    # sibling agreement: the dep5 reader decides what the licence OF a paragraph is (it parses exactly one accessor of
+    # paragraph.license); the converter must write that same accessor, whole
+    accs = sorted({m for t in reader_lic for m in re.findall(r"\.license\.(\w+(?:\(\))?)", t)})
+    if len(accs) != 1:
+        raise AnalysisError(f"ReuseDep5.reuse_info_of: licence accessor not recognised in {reader_lic}")
+    want_acc = f"paragraph.license.{accs[0]}"
     helper_ok = False
-    if lic_t is not None and lic_t != "paragraph.license.to_str()":
+    if lic_t is not None and lic_t not in (want_acc, f"cast(str, {want_acc})"):
         # one level through a helper that returns the expression unchanged
         m = re.fullmatch(r"(\w+)\(paragraph\)", lic_t)
         hq = f"{CD}.{m.group(1)}" if m else None
@@ -169,13 +175,14 @@ def rule_constants(ck: Check, repo: Repo, folder: Folder) -> None:
             h = repo.functions[hq]
             hp = h.args.args[0].arg if h.args.args else "paragraph"
             hr = [deep_text(h, n.value) for n in ast.walk(h) if isinstance(n, ast.Return) and n.value is not None]
-            helper_ok = hr in ([f"{hp}.license.to_str()"], [f"cast(str, {hp}.license.to_str())"])
+            helper_ok = hr in ([f"{hp}.license.{accs[0]}"], [f"cast(str, {hp}.license.{accs[0]})"])
             lic_t = f"{lic_t} -> {hr}"
-    if lic_v is None or not (lic_t == "paragraph.license.to_str()" or helper_ok):
+    if lic_v is None or not (lic_t in (want_acc, f"cast(str, {want_acc})") or helper_ok):
         r.violation(f"{CD}._annotations_from_paragraphs", f"licence value is {lic_t}",
-                    "the converted table must carry the paragraph's complete licence expression (paragraph.license.to_str(), what the"
-                    " dep5 reader parses); anything cut out of it (first word, first line) changes the licensing of every file"
-                    " the paragraph covers", repo.loc(fn))
+                    f"the dep5 reader takes `<paragraph>.license.{accs[0]}` for the licence expression of a paragraph; the converted table must"
+                    f" carry exactly that, whole: `.to_str()` appends the licence TEXT that may follow the synopsis in a License field"
+                    f" (REUSE.toml then does not parse and dep5 is already gone), a first word or first line drops operands of a"
+                    f" compound expression", repo.loc(fn))
     prec = written.get("precedence")
     agg = folder._getattr(folder.known(GL, "PrecedenceType"), "AGGREGATE", fn, repo.module(GL))
     if not isinstance(agg, EnumMember):
